@@ -18,6 +18,7 @@ pub fn reset() {
 /// previous token are flushed first, so `free<k>` sits where the free happened.
 pub fn ev(tok: &str) {
     flush_frees();
+    stream(tok);
     TRACE.with(|t| {
         let mut t = t.borrow_mut();
         if !t.is_empty() {
@@ -36,6 +37,27 @@ pub fn flush_frees() {
             }
             t.push_str(&format!("free{id}"));
         });
+        stream(&format!("free{id}"));
+    }
+}
+
+thread_local! {
+    static STREAM: std::cell::Cell<Option<bool>> = std::cell::Cell::new(None);
+}
+/// With `RT_NATIVE_STREAM` set every token is also written to stderr at once (unbuffered): when a
+/// script makes the PROCESS abort (a panic inside an `extern "C"` callback of the runtime cannot
+/// unwind) the checks re-run that one script in this mode and still get the trace up to the abort.
+fn stream(tok: &str) {
+    let on = STREAM.with(|s| match s.get() {
+        Some(b) => b,
+        None => {
+            let b = std::env::var_os("RT_NATIVE_STREAM").is_some();
+            s.set(Some(b));
+            b
+        }
+    });
+    if on {
+        eprint!("{tok} ");
     }
 }
 
